@@ -346,6 +346,9 @@ type problem struct {
 	orc       func(pb *problem, floatVals []float64, exec func(ins []*input) ([]float64, string)) oracle
 	ticks     int64
 	baseTicks int64 // loop iterations of the case's own float run
+	// degeneracy: smallest sigma/x0^2 over the Householder reflectors of the
+	// routine's reduction phase for the given input (nil: no such phase)
+	degeneracy func(ins []*input) float64
 	// iterative: the routine stops on a convergence threshold; a derivative
 	// failure is re-examined at nearby inputs (see persistent)
 	iterative bool
@@ -638,6 +641,12 @@ func judge(cs *fw.Case, pb *problem, cfg *caseCfg) bool {
 	return true
 }
 
+// reflectorLimit: below this sigma/x0^2 (x0 > 0) a derivative failure of a
+// Householder based routine is attributed to householder.Run (the three
+// witnesses seen have 3e-12, 6e-10 and 4e-8; above 1e-6 the loss stays below
+// the tolerance of the differential monitor).
+const reflectorLimit = 1e-6
+
 // persistent re-examines a derivative failure at four inputs that differ from
 // the case's by a relative perturbation (zero pattern and symmetry kept): 1e-9
 // for the iterative routines, 1e-3 for the direct routines of monitor (c).  A
@@ -652,6 +661,17 @@ func persistent(cs *fw.Case, pb *problem, cfg *caseCfg, f finding) finding {
 	}
 	ord := f.kind[:2]
 	fe := floatOf(cfg.e)
+	if pb.degeneracy != nil {
+		if ratio := pb.degeneracy(pb.in); ratio < reflectorLimit {
+			// known root cause outside the routine: householder.Run builds the
+			// reflector of a vector that is almost a positive multiple of e1 as
+			// nu = x/nu0 with nu0 = -sigma/(x0+mu) -> 0; derivative slots of
+			// 1/nu0^2 cancel in beta*nu*nu^T.  One signature for all routines.
+			f.sigOvr = fmt.Sprintf("C06|b,c|householder.Run: reflector of a vector almost parallel to +e1|%s|sigma/x0^2<%g|derivative", cfg.e.name, reflectorLimit)
+			f.detail = fmt.Sprintf("monitor %s, %s(%s), class %s, smallest sigma/x0^2 of its reflectors = %.3g: %s", cfg.mon, pb.routine, pbOpts(pb), pb.class, ratio, f.detail)
+			return f
+		}
+	}
 	rel := 1e-9
 	if !pb.iterative {
 		rel = 1e-3
